@@ -9,6 +9,10 @@ COMMON_NOTE = ("Trusted base: rustc/cargo 1.80.1, serde/serde_json, syn, python 
                "see DESIGN.md section 4 'Outside' for what the bound leaves open.")
 
 CHECKS = {
+ "C09": dict(
+  text="Exhaustive enumeration of allOf compositions: every ordered pair of a 21-fragment menu (as definition and as member) and every ordered triple of a 10-fragment sub-menu, i.e. every permutation of every unordered pair/triple; each is converted by the real typify-impl, compiled and run on the instance universe of the conjunction; (i) candidates valid under every subschema must be accepted (jsonschema oracle), (ii) acceptance and round-trip vectors must be equal across all permutations of one multiset (differential, no validator), (iii) an order that is rejected or uninhabited next to an inhabited permutation is a violation.",
+  design="DESIGN.md 4/C09", technique="exhaustive enumeration of permutations executed on compiled generated code; differential oracle across permutations + jsonschema intersection oracle",
+  note="4+ subschemas, numeric intersections and allOf inside not are outside the bound; fragments hitting merge's documented unimplemented!() are not in the menu. " + COMMON_NOTE),
  "C01": dict(
   text="Bounded exhaustive enumeration of (schema document, settings, ingestion batching): the depth-2 space (leaf x composite x context menus; thorough: + pairs + depth-3) under builder off/on (thorough: the 12-element product builder x 3 map types x derives), a name-collision family (prelude names and every name typify invents, as definition keys and member names), C06's default family, n=1 recursion graphs and three batchings of every document; each is ingested by the real typify-impl, rendered, parsed by syn and type-checked by rustc (cargo check) with per-case error attribution. Ingest Ok => renders, parses, zero rustc errors; and every member of the families must be accepted.",
   design="DESIGN.md 4/C01", technique="bounded exhaustive enumeration of schemas x settings x ingestion histories on the implementation; rustc type-check of every generated module",
